@@ -213,4 +213,12 @@ def variants(program):
             lambda n: parse_expr('dict((k, set(v)) for k, v in '
                                  'complete_dct.items())'))
     add('twin-dict-of-generator', 'twin', DGM, deepcopy_edges)
+    def prune_with_len(tree):
+        fun = find_func(tree, 'RList.__setitem__')
+        return replace_first(
+            fun, lambda n: isinstance(n, ast.If) and txt(n.test) ==
+            'not indices',
+            lambda n: ast.If(test=parse_expr('len(indices) == 0'),
+                             body=n.body, orelse=n.orelse))
+    add('twin-emptiness-tested-with-len', 'twin', RLM, prune_with_len)
     return out
